@@ -37,6 +37,8 @@ func scCert(serials []*big.Int) func() Scenario {
 		// another certificate with an already used serial; serials 8 and 10 with a revoke spelled "010" (decimal 10, octal 8)
 		al = append(al, aCreateCertAlt("T1", big.NewInt(1)), aCreateCertAlt("T1", big.NewInt(256)),
 			aCreateCert("T1", "T1", big.NewInt(8)), aCreateCert("T1", "T1", big.NewInt(10)), aRevokeCertSpelled("T1", "010"))
+		// certificates issued by another identity (Issuer CN != Subject CN): only the account the SUBJECT names may register one
+		al = append(al, aCreateCertIssued("T2", "T1", "T2", big.NewInt(12)), aCreateCertIssued("T1", "T1", "T2", big.NewInt(12)))
 		sc.Alphabet = al
 		return sc
 	}
@@ -231,10 +233,54 @@ func (chkC17) CheckState(w *World, s *Snap, st State) (out []Viol) {
 							}
 							next = res.Pagination.NextKey
 						}
-						check(what, got, func(r certRec) bool {
+						match := func(r certRec) bool {
 							return (fo == "" || r.Owner == fo) && (fs == "" || r.Serial.String() == fs) &&
 								(fst == "" || (fst == "valid" && r.State == ctypes.CertificateValid) || (fst == "revoked" && r.State == ctypes.CertificateRevoked))
-						})
+						}
+						check(what, got, match)
+						if limit == 0 {
+							return
+						}
+						// the same listing paged by OFFSET (with count_total): the pages together are the listing, the total is its size
+						var byOff []ctypes.CertificateResponse
+						for off := uint64(0); off < 64; off += limit {
+							req := &ctypes.QueryCertificatesRequest{Filter: ctypes.CertificateFilter{Owner: fo, Serial: fs, State: fst},
+								Pagination: &sdkquery.PageRequest{Offset: off, Limit: limit, CountTotal: true}}
+							res, err := q.Certificates(sdk.WrapSDKContext(ctx), req)
+							if err != nil {
+								add("listings-never-fail", "error:grpc-Certificates-offset"+has0, "%s offset=%d failed: %v", what, off, err)
+								return
+							}
+							want := 0
+							for _, r := range model {
+								if match(r) {
+									want++
+								}
+							}
+							if res.Pagination != nil && off == 0 && int(res.Pagination.Total) < want { // the statement demands completeness only: a filter the implementation ignores (serial without owner) may over-count
+								add("listing-complete", "offset-total", "%s offset=0 count_total reports only %d certificates, %d match the filter", what, res.Pagination.Total, want)
+							}
+							if len(res.Certificates) == 0 {
+								break
+							}
+							byOff = append(byOff, res.Certificates...)
+						}
+						check(what+" paged by offset", byOff, match)
+						// disjoint offset windows must not hand out one certificate twice: if they do, some window holds the wrong
+						// certificates, and a client that reads exactly the windows covering the matching ones misses one
+						// (a query naming owner AND serial is a point lookup, answered whatever the page window: not a listing)
+						seenOff := map[string]bool{}
+						for _, c := range byOff {
+							if fo != "" && fs != "" {
+								break
+							}
+							id := c.Certificate.String() + "|" + c.Serial
+							if seenOff[id] {
+								add("listing-complete", "offset-window-duplicate", "%s paged by offset (stride %d) returns certificate serial %s in two disjoint windows", what, limit, c.Serial)
+								break
+							}
+							seenOff[id] = true
+						}
 					})
 				}
 			}
